@@ -1,4 +1,4 @@
 #!/bin/bash
 # Run the repository's pinned test suite (guard off) on $1 (default /repo); prints the summary line.
 repo="${1:-/repo}"
-cd "$repo" && env -u COBALD_VERIF PYTHONPATH="$repo/src" /venv/bin/python -m pytest -ra -q -p no:cacheprovider --timeout=900 --continue-on-collection-errors 2>&1 | tail -4
+cd "$repo" && env -u COBALD_VERIF PYTHONPATH="$repo/src" /venv/bin/python -m pytest -ra -q -p no:cacheprovider --timeout=${TEST_TIMEOUT:-900} --continue-on-collection-errors 2>&1 | tail -4
